@@ -57,6 +57,7 @@ type execExtra struct {
 	panicFrames     []*frame
 	tasks           []*coTask
 	cur             *coTask
+	skipIntrinsic   *ssa.Function
 	waitGroups      map[string]int
 	inTask          int
 	pools           map[string][]Value
